@@ -565,7 +565,8 @@ def _ip(string: str, error: str) -> int:
 
 
 def _encode(command: str, components: list[int], parts: list[str]) -> tuple[bytes, str]:
-    if command not in _HEADER:
+    if command not in _HEADER or command not in _ENCODE:
+        # `redirect-to-nexthop` has a header and no fields: it is written on its own
         raise ValueError('invalid extended community type {}'.format(command))
 
     if command in ('origin', 'target'):
